@@ -54,38 +54,49 @@ def injection_scenarios(tier, seed, tail):
                 ('FAILURE', [5, None])]
         return pubs, nots
 
-    for situation in ('isolated', 'stopped', 'checking'):
-        c = cl.make_cluster(cfg, programs=[{'name': 'p', 'groups': ['app']}], rules_xml=RULES)
+    cfg_b = cl.Config(n=3, auto_fence=False, sync=('LIST', 'TIMEOUT'))
+    traces_b, recs_b = [], {}
+    for situation in ('isolated', 'stopped', 'failed', 'checking'):
+        the_cfg = cfg if situation == 'isolated' else cfg_b
+        c = cl.make_cluster(the_cfg, programs=[{'name': 'p', 'groups': ['app']}], rules_xml=RULES)
         d = Driver(c)
         try:
             for n in c.nodes:
                 d.boot(n)
             for _ in range(8):
                 d.fair_round()
-            d.rpc('n2', 'startProcess', 'app:p', False, ns='supervisor')
-            for _ in range(3):
-                d.fair_round()
-            d.crash('n3')
-            for _ in range(5):
-                d.fair_round()
-            want = {'isolated': 'ISOLATED', 'stopped': 'ISOLATED', 'checking': 'ISOLATED'}[situation]
-            # (b) uses n2 as the non-admitted peer of a fresh observer: n1 restarted sees n2 STOPPED / CHECKING
-            if situation != 'isolated':
-                d.crash('n1')
-                d.boot('n1')
-                if situation == 'checking':
-                    d.tick('n1')
-                    d.drain(only=lambda pr: pr == ('n1', 'n1'))
-                    d.tick('n1')
-                    d.tick('n2')
-                    d.drain(only=lambda pr: pr == ('n2', 'n1'))      # n1 holds n2 in CHECKING (handshake pending)
-                peer = 'n2'
-            else:
+            if situation == 'isolated':
+                # (a) n3 crashed and was fenced: n1 holds it ISOLATED
+                d.rpc('n2', 'startProcess', 'app:p', False, ns='supervisor')
+                for _ in range(3):
+                    d.fair_round()
+                d.crash('n3')
+                for _ in range(5):
+                    d.fair_round()
                 peer = 'n3'
+            else:
+                # (b) n1 is in OPERATION and displays app:p RUNNING on n3 (admitted); n2 has not passed the handshake
+                d.rpc('n3', 'startProcess', 'app:p', False, ns='supervisor')
+                for _ in range(3):
+                    d.fair_round()
+                d.crash('n2')
+                peer = 'n2'
+                for _ in range(8):
+                    if d.rec.observe('n1')['inst'].get(peer) == {'failed': 'FAILED'}.get(situation, 'STOPPED'):
+                        break
+                    d.fair_round()
+                if situation == 'checking':
+                    d.boot('n2')
+                    for _ in range(2):
+                        d.tick('n2')
+                        d.drain(only=lambda pr: pr in (('n2', 'n1'), ('n2', 'n2')))   # handshake of n1 left pending
             state = d.rec.observe('n1')['inst'].get(peer)
-            expect = {'isolated': 'ISOLATED', 'stopped': 'STOPPED', 'checking': 'CHECKING'}[situation]
+            expect = {'isolated': 'ISOLATED', 'stopped': 'STOPPED', 'checking': 'CHECKING',
+                      'failed': 'FAILED'}[situation]
             if state != expect:
                 raise cc.MachineryFailure(f'C13 injection harness: n1 sees {peer} {state}, wanted {expect}')
+            if situation != 'isolated' and c.fsm_state('n1') != 'OPERATION':
+                raise cc.MachineryFailure(f'C13 injection harness: n1 in {c.fsm_state("n1")}')
             pubs, nots = messages(c, peer)
             msgs = [('P', x) for x in pubs] + [('N', x) for x in nots]
             for typ, (label, body) in msgs:
@@ -100,17 +111,22 @@ def injection_scenarios(tier, seed, tail):
                     c.after_step('n1')
                     after = full_snapshot(c, 'n1')
                     pafter = proc_snapshot(c, 'n1')
-                    process_kind = label.startswith('PROCESS') or label == 'ALL_INFO'
-                    d.rec.end({'iso': situation == 'isolated', 'snapchg': before != after,
-                               'nonadm': situation != 'isolated' and process_kind and situation != 'checking'
-                               or (situation == 'checking' and label.startswith('PROCESS')),
+                    # process events of every kind are only taken from CHECKED / RUNNING peers; a process table
+                    # (ALL_INFO) is part of the handshake: expected from a CHECKING peer, not from a STOPPED / FAILED one
+                    nonadm = situation != 'isolated' and (label.startswith('PROCESS') or
+                                                          (label == 'ALL_INFO' and situation != 'checking'))
+                    d.rec.end({'iso': situation == 'isolated', 'snapchg': before != after, 'nonadm': nonadm,
                                'procchg': pbefore != pafter})
         finally:
             c.close()
-        traces.append(cl.mon_trace(k, d.rec, cfg, False, False))
-        recs[k] = d.rec
+        if situation == 'isolated':
+            traces.append(cl.mon_trace(k, d.rec, the_cfg, False, False))
+            recs[k] = d.rec
+        else:
+            traces_b.append(cl.mon_trace(k, d.rec, the_cfg, False, False))
+            recs_b[k] = d.rec
         k += 1
-    return [(cfg, traces, recs)]
+    return [(cfg, traces, recs), (cfg_b, traces_b, recs_b)]
 
 
 def main(tier, seed, replay=None):
